@@ -180,12 +180,12 @@ pub fn check(case: &Case, st: &mut Stats) -> Result<(), Violation> {
 }
 
 pub fn run(ctx: &Ctx, st: &mut Stats) -> Vec<Violation> {
-    let mut v = run_proptest(ctx, st, "random", ctx.cases(60_000, 600_000), strategy, check);
+    let mut v = run_proptest(ctx, st, "random", ctx.cases(60_000, 6_000_000), strategy, check);
     if !v.is_empty() {
         return v;
     }
     // enumerated: every primaries x direction x lattice on [-0.5,2]^3 (incl. white)
-    let side: usize = if ctx.light { 11 } else { ctx.pick(33, 101) };
+    let side: usize = if ctx.light { 11 } else { ctx.pick(33, 201) };
     let jobs: Vec<(CP, bool)> = SUP_CP.iter().flat_map(|p| [(*p, true), (*p, false)]).collect();
     v.extend(par_sweep(ctx, st, (jobs.len() * side) as u64, |lo, hi, st| {
         for idx in lo..hi {
